@@ -62,20 +62,28 @@ struct Sim {
     flavor: Flavor,
     /// who must authorize `mint` (index), if anybody
     mint_auth: Option<usize>,
+    /// the host's max_entry_ttl of this sequence
+    max_ttl: u32,
 }
 
 impl Sim {
     fn new(min_temp: u32, start: u32) -> Sim {
-        let e = new_env(start, min_temp, MAX_TTL);
+        Self::new_ttl(min_temp, start, MAX_TTL)
+    }
+    fn new_ttl(min_temp: u32, start: u32, max_ttl: u32) -> Sim {
+        let e = new_env(start, min_temp, max_ttl);
         let tok = e.register(Tok, ());
         let u = Universe::new(&e, N);
-        Sim { e, u, tok, now: start, min_temp, flavor: Flavor::Base, mint_auth: None }
+        Sim { e, u, tok, now: start, min_temp, flavor: Flavor::Base, mint_auth: None, max_ttl }
     }
     /// One of the example contracts with all its gates open (everybody allowed, nobody
     /// blocked, not paused, cap = i128::MAX), so that it must behave exactly like `Base`.
     /// Returns the initial supply minted by the constructor to account 0.
     fn new_flavor(t: &mut Trace, flavor: Flavor, min_temp: u32, start: u32, initial: i128) -> Sim {
-        let e = new_env(start, min_temp, MAX_TTL);
+        Self::new_flavor_ttl(t, flavor, min_temp, start, initial, MAX_TTL)
+    }
+    fn new_flavor_ttl(t: &mut Trace, flavor: Flavor, min_temp: u32, start: u32, initial: i128, max_ttl: u32) -> Sim {
+        let e = new_env(start, min_temp, max_ttl);
         let u = Universe::new(&e, N);
         let name = SString::from_str(&e, "T");
         let sym = SString::from_str(&e, "T");
@@ -95,7 +103,7 @@ impl Sim {
             Flavor::Capped => e.register(ex_capped::ExampleContract, (i128::MAX,)),
             Flavor::Base => e.register(Tok, ()),
         };
-        let mut s = Sim { e, u, tok, now: start, min_temp, flavor, mint_auth };
+        let mut s = Sim { e, u, tok, now: start, min_temp, flavor, mint_auth, max_ttl };
         if flavor == Flavor::AllowList {
             for i in 0..N {
                 let r = call(&s.e, &s.tok, "allow_user", args(&s.e, [v(&s.e, s.u.a(i)), v(&s.e, s.u.a(0))]), &[s.u.a(0)]);
@@ -119,27 +127,38 @@ impl Sim {
             Flavor::Votes | Flavor::Capped => !matches!(kind, "burn" | "burn_from"),
         }
     }
+    /// getters; a getter that traps is shown as `?` (the monitor then flags the observation)
+    fn bal_opt(&self, i: usize) -> Option<i128> {
+        query(&self.e, &self.tok, "balance", args(&self.e, [v(&self.e, self.u.a(i))]))
+    }
     fn bal(&self, i: usize) -> i128 {
-        query(&self.e, &self.tok, "balance", args(&self.e, [v(&self.e, self.u.a(i))])).unwrap()
+        self.bal_opt(i).unwrap_or(0)
+    }
+    fn allowance_opt(&self, o: usize, s: usize) -> Option<i128> {
+        query(&self.e, &self.tok, "allowance", args(&self.e, [v(&self.e, self.u.a(o)), v(&self.e, self.u.a(s))]))
     }
     fn allowance(&self, o: usize, s: usize) -> i128 {
-        query(&self.e, &self.tok, "allowance", args(&self.e, [v(&self.e, self.u.a(o)), v(&self.e, self.u.a(s))])).unwrap()
+        self.allowance_opt(o, s).unwrap_or(0)
+    }
+    fn supply_opt(&self) -> Option<i128> {
+        query(&self.e, &self.tok, "total_supply", args(&self.e, []))
     }
     fn supply(&self) -> i128 {
-        query(&self.e, &self.tok, "total_supply", args(&self.e, [])).unwrap()
+        self.supply_opt().unwrap_or(0)
     }
     fn state(&self) -> String {
-        let bals: Vec<i128> = (0..N).map(|i| self.bal(i)).collect();
+        let sh = |x: Option<i128>| x.map(|v| v.to_string()).unwrap_or_else(|| "?".to_string());
+        let bals: Vec<String> = (0..N).map(|i| sh(self.bal_opt(i))).collect();
         let mut al = vec![];
         for o in 0..N {
             for s in 0..N {
-                let a = self.allowance(o, s);
-                if a != 0 {
-                    al.push(format!("{}:{}:{}", o, s, a));
+                match self.allowance_opt(o, s) {
+                    Some(0) => {}
+                    a => al.push(format!("{}:{}:{}", o, s, sh(a))),
                 }
             }
         }
-        format!("sup={} bal={} allow={}", self.supply(), join(&bals), if al.is_empty() { "-".into() } else { al.join(";") })
+        format!("sup={} bal={} allow={}", sh(self.supply_opt()), bals.join(","), if al.is_empty() { "-".into() } else { al.join(";") })
     }
     fn events(&self) -> String {
         let evs = last_events(&self.e);
@@ -201,7 +220,7 @@ impl Sim {
     }
     fn advance(&mut self, t: &mut Trace, n: u32) {
         self.now += n;
-        set_ledger(&self.e, self.now, self.min_temp, MAX_TTL);
+        set_ledger(&self.e, self.now, self.min_temp, self.max_ttl);
         t.op(&format!("fungible advance n={}", n));
         let st = self.state();
         t.obs(&format!("ok {} now={} ev=- dem=-", st, self.now));
@@ -277,6 +296,36 @@ fn gen_auth(rng: &mut Rng, kind: &str, a: &[usize], auth_focus: bool, mint_auth:
     }
 }
 
+/// Long idle periods: persistent data (balances, supply) must survive months without any
+/// access; only allowances are time-bounded. One-year max_entry_ttl so that the unmodified
+/// code's persistent entries stay live over the horizon.
+fn scenario_long_idle(t: &mut Trace) {
+    const DAY: u32 = 17_280;
+    const YEAR_TTL: u32 = 6_312_000;
+    for flavor in [Flavor::Base, Flavor::Votes, Flavor::Capped] {
+        t.seq(&format!("directed long idle min_temp=16 start=100 max_ttl={} flavor={:?}", YEAR_TTL, flavor));
+        let mut s = if flavor == Flavor::Base { Sim::new_ttl(16, 100, YEAR_TTL) } else { Sim::new_flavor_ttl(t, flavor, 16, 100, 0, YEAR_TTL) };
+        let ma: Vec<usize> = s.mint_auth.into_iter().collect();
+        s.exec(t, "mint", &[0], 1000, 0, &ma);
+        s.exec(t, "mint", &[1], 50, 0, &ma);
+        s.exec(t, "transfer", &[0, 2], 300, 0, &[0]);
+        s.exec(t, "approve", &[0, 3], 200, 100 + 40 * DAY, &[0]);
+        s.exec(t, "approve", &[2, 3], 70, 150, &[2]);
+        s.advance(t, DAY);
+        s.exec(t, "transfer_from", &[3, 0, 4], 20, 0, &[3]);
+        s.exec(t, "transfer_from", &[3, 2, 4], 1, 0, &[3]);
+        s.advance(t, 31 * DAY);
+        s.exec(t, "transfer", &[1, 4], 50, 0, &[1]);
+        s.exec(t, "transfer_from", &[3, 0, 4], 20, 0, &[3]);
+        s.advance(t, 100 * DAY);
+        s.exec(t, "transfer", &[2, 0], 300, 0, &[2]);
+        s.exec(t, "transfer_from", &[3, 0, 4], 20, 0, &[3]);
+        s.exec(t, "mint", &[4], 5, 0, &ma);
+        s.exec(t, "transfer", &[4, 1], 95, 0, &[4]);
+        s.exec(t, "transfer", &[4, 1], 1, 0, &[4]);
+    }
+}
+
 fn scenario_directed(t: &mut Trace) {
     // hand-written regression histories; run first on every invocation
     t.seq("directed self-transfer, zero, overflow boundary, expiry min_temp=1 start=100");
@@ -328,6 +377,7 @@ fn main() {
     let nseq = arg_u64("--seqs", if thorough { 1500 } else { 220 });
     let len = arg_u64("--len", 45);
     let mut rng = Rng::new(seed);
+    scenario_long_idle(&mut t);
     scenario_directed(&mut t);
     let flavors = std::env::args().any(|a| a == "--flavors");
     for k in 0..nseq {
